@@ -218,6 +218,8 @@ type zzC08Odd struct {
 	Cx   complex64
 	If   interface{}
 	MI   map[int]string
+	Tags []interface{}
+	SU   []uint
 }
 
 // ZZ_C08_OddObjects: nil, non-struct values, nil pointers, maps with
@@ -229,9 +231,13 @@ func ZZ_C08_OddObjects(sv *zzsv.T) {
 		nil, 42, "text", []int{1, 2}, nilStruct, &x,
 		map[int]string{1: "a"}, map[string]int{"Name": 1}, map[string]interface{}{"Name": nil, "U": uint(3), "P": &x, "C": make(chan int)},
 		zzC08Odd{Name: "n", P: &x, If: 5}, &zzC08Odd{Name: "n"}, struct{}{}, 3.5, true, func() {},
+		// slices with members the engine cannot convert
+		map[string]interface{}{"Name": "n", "Tags": []interface{}{"a", nil, "b"}, "SU": []interface{}{[]interface{}{"x"}, uint(1)}},
+		zzC08Odd{Name: "n", Tags: []interface{}{nil, &x, 1}, SU: []uint{1, 2}},
 	}
 	obj := objs[sv.Choice("object", len(objs))]
-	scripts := []string{"return Name;", "return U;", "return P;", "return N;", "return MI;", "return If;", "return Name == \"n\";", "return 1;", "return len(Name) + U;"}
+	scripts := []string{"return Name;", "return U;", "return P;", "return N;", "return MI;", "return If;", "return Name == \"n\";", "return 1;", "return len(Name) + U;",
+		"return Tags[1];", "return Tags[0];", "return SU[0];", "foreach t in Tags { return t; } return 2;", "return len(Tags) + len(SU);", "return Tags;"}
 	src := scripts[sv.Choice("script", len(scripts))]
 	sv.Note("script", src)
 	ok := zzNoPanic(func() {
